@@ -58,6 +58,9 @@ def pubkey(i):
     return _pub[i]
 
 
+NON_RSA_CERTS = (15, 16, 17)      # fixtures k15 (EC P-256), k16 (Ed25519), k17 (DSA)
+
+
 def raw_params(url):
     q = up.urlsplit(url).query
     return [tuple(p.split("=", 1)) if "=" in p else (p, "") for p in q.split("&") if p]
@@ -215,11 +218,16 @@ def run_inputs(case, ctx, viol, counters, sigs):
     m = dict(params); m[other_typ] = params[typ]; muts["other-message-parameter-added-copy"] = m
     m = dict(params); m[other_typ] = "AAAA"; muts["other-message-parameter-added"] = m
     m = dict([(other_typ, "AAAA")] + list(params.items())); muts["other-message-parameter-added-first"] = m
-    verifier = ctx.ents["idp" if case["who"] == "sp" else "sp"]
-    for name, mp in muts.items():
+    other = "idp" if case["who"] == "sp" else "sp"
+    # who verifies: the peer - and the signer itself (its own URL reflected back to it in somebody else's name); under which certificate: the
+    # signer's, other entities', and third parties' certificates that carry no RSA key at all (EC, Ed25519, DSA)
+    for (name, mp), vname in itertools.product(muts.items(), (other, case["who"])):
+        verifier = ctx.ents[vname]
         # independent verdict over what a receiver would reconstruct from the decoded parameters
         rp = [(k, up.quote_plus(v)) for k, v in mp.items()]
-        for cert_i in (ENT_KEYS[case["who"]], ENT_KEYS["sp2"], ENT_KEYS["idp" if case["who"] == "sp" else "sp"]):
+        for cert_i in (ENT_KEYS[case["who"]], ENT_KEYS["sp2"], ENT_KEYS[other]) + NON_RSA_CERTS:
+            if vname == case["who"] and name not in ("unchanged", "reordered", "message-changed", "sigalg-swapped"):
+                continue
             want = independent_verify(rp, cert_i)
             must = (name in ("unchanged", "reordered")) and cert_i == ENT_KEYS[case["who"]]
             if want != must:
